@@ -169,7 +169,7 @@ def job(E, version, name, comps, single=False, dest="/jail/dest", cwd="/jail/cwd
     # an unrelated file already sits wherever the hostile path would land outside the destination
     land = posixpath.normpath(posixpath.join("/jail/dest", name, *(p0 if not single else [])))
     if not (land == "/jail/dest" or land.startswith("/jail/dest/")) and land not in fs.dirs and land not in fs.files and land != "/":
-        fs.add_token(land, ("VICTIM", 0))
+        fs.add(land, ("victim", 0), 3)
     snap = fs.snapshot()
     w = World(fs, mutants=_mutants)
     try:
@@ -274,10 +274,10 @@ def canaries(tier):
     return [
         ("rebuild: containment check dropped for the v1 route", {"rebuild": [(
             "                if not _inside(self.dest, dest_path):\n                    return False\n", "")]},
-         ["v1.name.0", "v1.first.0", "v1.single.name.0"]),
+         ["v1.name.0", "v1.name.3", "v1.first.3"]),
         ("rebuild: containment check dropped for the v2 route", {"rebuild": [(
             "                        if not _inside(dest, dest_path):\n                            continue\n", "")]},
-         ["v2.first.0", "v3.name.0"]),
+         ["v2.first.3", "v3.name.0", "v2.name.3"]),
     ]
 
 
